@@ -599,8 +599,11 @@ def real_ck(line):
             c.add(0x55)
             c.reset()
             data = bytes.fromhex(p[1])
+            def as_held(j, x):
+                # a byte as the caller may hold it: a plain int, an int by another name, a bool for 0 / 1 (which depends on the position)
+                return SubInt(x) if j % 3 == 1 else (bool(x) if x in (0, 1) and j % 3 == 2 else x)
             for k in range(0, len(data), 7):        # (in pieces: each piece may come from another thread)
-                realenv.in_thread(lambda part: [c.add(x) for x in part], data[k:k + 7])
+                realenv.in_thread(lambda part: [c.add(as_held(j, x)) for j, x in enumerate(part)], data[k:k + 7])
             va, vb = realenv.in_thread(c.value)
             ok = c.matches(va, vb) and c.matches(va, vb) and c.value() == (va, vb)        # (asked twice: asking is not changing)
             return f'{va},{vb} {"true" if ok else "false"}'
@@ -800,6 +803,8 @@ def lookalike_payloads(rng, name):
 
 def model_line_fields(line):
     p = line.split('|')
+    if p[0] == 'fieldsmv':
+        return 'fields|' + p[1] + '|' + p[2]
     if p[0] == 'fieldsagain':
         return '|'.join(['fields', p[1], p[3]])
     return '|'.join(['fields'] + p[1:3]) if p[0] == 'fieldsobs' else line
@@ -883,6 +888,19 @@ def real_fields(line):
         return real_fieldscopy(line)
     if parts[0] == 'fieldsagain':
         return real_fieldsagain(line)
+    if parts[0] == 'fieldsmv':
+        # the payload handed over as a memoryview of the caller's receive buffer, which is used again as soon as the frame has been
+        # decoded: what the frame holds are the values that were in the buffer when it was decoded
+        try:
+            buf = bytearray(bytes.fromhex(parts[2]))
+            f = find_class(parts[1]).construct(memoryview(buf))
+            for k in range(len(buf)):
+                buf[k] = 0xEE
+            dec = ','.join(f'{it.name}={show(it.value)}' for it in ordered_items(f) if not isinstance(it, Padding))
+            f.pack()
+            return dec + ' pack=' + bytes(f.data).hex()
+        except Exception as e:
+            return 'EXC:' + exc_name(e)
     name, h = parts[1], parts[2]
     pl = bytes.fromhex(h)
     given = bytearray(pl)
@@ -1027,6 +1045,10 @@ def gen_fields(rng, n, profile):
             pl, pl2 = payload_for(rng, name), payload_for(rng, name)
             if wellformed(name, pl):
                 yield f'fieldsagain|{name}|{pl.hex()}|{pl2.hex()}|{how}'
+        for _ in range(3):
+            pl = payload_for(rng, name)
+            if wellformed(name, pl) and not text_ranges(name, pl):
+                yield f'fieldsmv|{name}|{pl.hex()}'
         for how in (8, 9, 10, 11):
             pl, pl2 = payload_for(rng, name), payload_for(rng, name)
             if wellformed(name, pl):
@@ -1193,6 +1215,18 @@ def real_assign(line):
         if mode.startswith('P'):
             f.pack()
             f.to_bytes()
+        if 'F' in mode:
+            # an encode that is refused first: the LAST numeric field gets a value no field holds, pack() raises, the caller catches it
+            # and puts the old value back - then the edit the line is about
+            nums = [it for it in ordered_items(f) if isinstance(it.value, int) and not isinstance(it, (Padding, CfgKeyData))]
+            if nums:
+                old_v = nums[-1].value
+                nums[-1].value = 1 << 70
+                try:
+                    f.pack()
+                except Exception:
+                    pass
+                nums[-1].value = old_v
         given = parse_value(val)
         if isinstance(given, int):
             given = dress(given, line)
@@ -1306,7 +1340,7 @@ def gen_assign(rng, n, profile):
             for fname, k, w in picks:
                 vals = boundary_values(rng, k, w)
                 for v in (vals if n >= 30 else rng.sample(vals, 4)):
-                    yield f'assign|{name}|{pl.hex()}|{fname}|{v}|{rng.choice(["A", "A", "G", "PA", "PG", "PG"])}'
+                    yield f'assign|{name}|{pl.hex()}|{fname}|{v}|{rng.choice(["A", "A", "G", "PA", "PG", "PG", "FA", "FG", "PFA"])}'
 
 
 # =====================================================================================================
@@ -1515,9 +1549,16 @@ def oracles_keyseq(line, real_out):
                 for x in r:
                     x['what'] += ' (one item object encoded again after its fields were changed)'
                 recs += [dict(x, prop=q) for x in r[:1] for q in ('C13', 'C14')] if r else []
-            elif op[0] == 'U' and not o.startswith('EXC'):
-                f = o.split(',')
-                g, i, bits, sg, v = int(f[0]), int(f[1]), int(f[2]), f[3] == '1', int(f[4])
+            elif op[0] == 'U':
+                # every decode is judged by the reference decoder, whatever the object decoded before
+                r = ref_unpack(bytes.fromhex(op[1:]))
+                exp = 'EXC:ValueError' if r is None else ','.join(str(int(x)) for x in r[0]) + f',n={r[1]}'
+                recs += [{'prop': q, 'ok': o == exp, 'expected': exp, 'observed': o[:200],
+                          'what': 'decoding a key/value pair gives its group, item, size, the signedness the key table gives the key, and the value - '
+                                  'whatever the item object held before'} for q in ('C13', 'C14')]
+                if not o.startswith('EXC'):
+                    f = o.split(',')
+                    g, i, bits, sg, v = int(f[0]), int(f[1]), int(f[2]), f[3] == '1', int(f[4])
         elif op[0] == 'G':
             g = int(op[1:])
         elif op[0] == 'I':
@@ -1717,6 +1758,17 @@ def gen_key(rng, n, profile):
             else:
                 ops.append(f'Z{rng.randrange(2)}')
         yield 'keyseq|' + ';'.join(ops + ['P'])
+    # one item object decodes a key the table documents as signed, then a key the table does not list (value with its top bit set), and
+    # the other way round: what it knows about one key is not what it knows about the next
+    signed_keys = [k for k in keys if table_signed(k)]
+    for sk in signed_keys:
+        sb = {1: 1, 2: 8, 3: 16, 4: 32, 5: 64}[(sk >> 28) & 7]
+        sval = bytes([0x80 | j for j in range(WIDTH[sb])])
+        for code in (2, 3, 4, 5):
+            w = WIDTH[{2: 8, 3: 16, 4: 32, 5: 64}[code]]
+            other = struct.pack('<I', (code << 28) | (0xEE << 16) | 0x123) + bytes([0xF0 | j for j in range(w)])
+            yield f'keyseq|U{(struct.pack("<I", sk) + sval).hex()};U{other.hex()};P'
+            yield f'keyseq|U{other.hex()};U{(struct.pack("<I", sk) + sval).hex()};P;U{other.hex()};P'
     # a refused decode, then a good one into the same object, for every way of refusing and every width
     for key in keys[:12] + keys[-6:]:
         bits = {1: 1, 2: 8, 3: 16, 4: 32, 5: 64}[(key >> 28) & 7]
